@@ -18,7 +18,7 @@ PROPERTY = 'C20'
 LEVEL = 'exploration'
 
 CODECS = ['latin_1', 'cp500', 'cp037']
-META = ['', ',', '"', '""', ';', ' x', 'x ', "a,b\"c"]
+META = ['', ',', '"', '""', ';', ' x', 'x ', "a,b\"c", '[!]^|']
 
 
 def columns():
